@@ -13,7 +13,17 @@ use crate::{c02::gen_key, common::*, syncmsg::*, world::*};
 
 #[derive(Clone, Debug, Serialize, Deserialize)]
 pub enum Op {
-    Cfg { file_a: bool, file_b: bool, max_set: usize, split: usize, bob_initiates: bool },
+    Cfg {
+        file_a: bool,
+        file_b: bool,
+        max_set: usize,
+        split: usize,
+        bob_initiates: bool,
+        /// run the session through the network drivers (`run_alice` / `BobState::run` over a duplex
+        /// pipe, two store actors) instead of calling the replicas directly
+        #[serde(default)]
+        net: bool,
+    },
     /// remote insert into replica A (0), B (1) or both (2)
     Put { side: u8, a: usize, key: Vec<u8>, c: Option<usize>, ts: u64 },
 }
@@ -28,6 +38,89 @@ pub const PEER_B: [u8; 32] = [0xB2; 32];
 impl C01 {
     pub fn new() -> Self {
         C01 { keys: Keys::new(1, 3) }
+    }
+
+    /// the same session through the network drivers: two store actors, `run_alice` on one side and
+    /// `BobState::run` on the other, connected by an in-memory duplex pipe (default reconciliation
+    /// parameters: the actors run on their own threads)
+    fn execute_net(
+        &self,
+        sa: RealStore,
+        sb: RealStore,
+        nsid: iroh_docs::NamespaceId,
+        nshex: &str,
+        bob_initiates: bool,
+        mut lines: Vec<Line>,
+    ) -> anyhow::Result<Vec<Line>> {
+        use iroh_docs::{
+            actor::{OpenOpts, SyncHandle},
+            net::{verif_codec::{run_alice, BobState}, AcceptOutcome},
+        };
+        iroh_docs::verif::set_clock_micros(Some(NOW));
+        let rt = tokio::runtime::Builder::new_current_thread().enable_time().build()?;
+        let (fa, fb) = (sa.file, sb.file);
+        // the initiator's store first
+        let (init_store, resp_store, init_is_a) = if bob_initiates { (sb.store, sa.store, false) } else { (sa.store, sb.store, true) };
+        let h_init = SyncHandle::spawn(init_store, None, "c01-init".into());
+        let h_resp = SyncHandle::spawn(resp_store, None, "c01-resp".into());
+        let pk_init = iroh::SecretKey::from_bytes(&[5u8; 32]).public();
+        let pk_resp = iroh::SecretKey::from_bytes(&[6u8; 32]).public();
+        let res: anyhow::Result<(Result<(u64, u64), String>, Result<(u64, u64), String>)> = rt.block_on(async {
+            h_init.open(nsid, OpenOpts::default().sync()).await?;
+            h_resp.open(nsid, OpenOpts::default().sync()).await?;
+            let (p1, p2) = tokio::io::duplex(1 << 22);
+            let (mut r1, mut w1) = tokio::io::split(p1);
+            let (mut r2, mut w2) = tokio::io::split(p2);
+            let hi = h_init.clone();
+            let hr = h_resp.clone();
+            let alice = async move {
+                let r = run_alice(&mut w1, &mut r1, &hi, nsid, pk_resp).await;
+                drop(w1);
+                r.map(|o| (o.num_recv as u64, o.num_sent as u64)).map_err(|e| format!("{e:#}"))
+            };
+            let bob = async move {
+                let mut state = BobState::new(pk_init);
+                let r = state.run(&mut w2, &mut r2, hr, |_ns, _peer| std::future::ready(AcceptOutcome::Allow)).await;
+                drop(w2);
+                match r {
+                    Ok(_) => {
+                        let o = state.into_outcome();
+                        Ok((o.num_recv as u64, o.num_sent as u64))
+                    }
+                    Err(e) => Err(format!("{e:#}")),
+                }
+            };
+            let both = tokio::time::timeout(std::time::Duration::from_secs(30), async { tokio::join!(alice, bob) }).await;
+            match both {
+                Ok((a, b)) => Ok((a, b)),
+                Err(_) => Ok((Err("timeout".into()), Err("timeout".into()))),
+            }
+        });
+        let (alice, bob) = res?;
+        // specification: both ends succeed and their counters mirror
+        let line = match (&alice, &bob) {
+            (Ok((ar, as_)), Ok((br, bs))) => {
+                if ar == bs && as_ == br { "mirror=1".to_string() } else { format!("mirror=0:initiator-recv/sent={ar}/{as_},acceptor-recv/sent={br}/{bs}") }
+            }
+            (a, b) => format!("session-failed:initiator={a:?},acceptor={b:?}"),
+        };
+        lines.push(Line::oracle("sconst mirror=1", line));
+        let mut init_store = rt.block_on(h_init.shutdown())?;
+        let mut resp_store = rt.block_on(h_resp.shutdown())?;
+        iroh_docs::verif::set_clock_micros(None);
+        // specification: both replicas hold join(A0 ∪ B0)
+        let (store_a, store_b) = if init_is_a { (&mut init_store, &mut resp_store) } else { (&mut resp_store, &mut init_store) };
+        for store in [store_a, store_b] {
+            let mut toks = Vec::new();
+            for e in store.get_many(nsid, iroh_docs::store::Query::all().include_empty())? {
+                let e = e?;
+                toks.push(with_fp(stored_tok(&e), &e));
+            }
+            lines.push(Line::oracle("sjoin a b", entries_line(&toks)));
+        }
+        let _ = nshex;
+        drop((fa, fb));
+        Ok(lines)
     }
 }
 
@@ -106,7 +199,7 @@ impl Property for C01 {
     }
     fn corpus(&self) -> Vec<(String, Vec<Op>)> {
         let p = |side: u8, a: usize, k: &[u8], c: Option<usize>, ts: u64| Op::Put { side, a, key: k.to_vec(), c, ts };
-        let cfg = |bob: bool| Op::Cfg { file_a: false, file_b: false, max_set: 1, split: 2, bob_initiates: bob };
+        let cfg = |bob: bool| Op::Cfg { file_a: false, file_b: false, max_set: 1, split: 2, bob_initiates: bob, net: false };
         vec![
             // F1: a deletion marker newer than the peer's live entry below it
             ("f1-marker-vs-live-child".into(), vec![cfg(false), p(0, 0, b"a", None, 10), p(1, 0, b"ab", Some(0), 5)]),
@@ -124,6 +217,7 @@ impl Property for C01 {
             max_set: if default_cfg { 1 } else { *rng.pick(&[0usize, 1, 2, 4]) },
             split: if default_cfg { 2 } else { *rng.pick(&[2usize, 3, 4, 5]) },
             bob_initiates: rng.chance(1, 2),
+            net: rng.chance(1, 5),
         }];
         let max = if thorough { 20 } else { 10 };
         let na = rng.range(0, max);
@@ -146,9 +240,9 @@ impl Property for C01 {
         ops
     }
     fn execute(&self, ops: &[Op]) -> anyhow::Result<Vec<Line>> {
-        let (file_a, file_b, max_set, split, bob_initiates) = match ops.first() {
-            Some(Op::Cfg { file_a, file_b, max_set, split, bob_initiates }) => (*file_a, *file_b, *max_set, *split, *bob_initiates),
-            _ => (false, false, 1, 2, false),
+        let (file_a, file_b, max_set, split, bob_initiates, net) = match ops.first() {
+            Some(Op::Cfg { file_a, file_b, max_set, split, bob_initiates, net }) => (*file_a, *file_b, *max_set, *split, *bob_initiates, *net),
+            _ => (false, false, 1, 2, false, false),
         };
         let rt = rt();
         set_clock(NOW);
@@ -182,6 +276,9 @@ impl Property for C01 {
         }
         lines.push(Line::model(format!("snap a 1 {nshex}"), "ok"));
         lines.push(Line::model(format!("snap b 2 {nshex}"), "ok"));
+        if net {
+            return self.execute_net(sa, sb, nsid, &nshex, bob_initiates, lines);
+        }
         iroh_docs::verif::set_thread_sync_config(Some((max_set, split)));
         let budget = 4 * (n_a + n_b) + 8;
         let res = (|| -> anyhow::Result<()> {
@@ -227,7 +324,10 @@ impl Property for C01 {
     }
     fn features(&self, ops: &[Op], lines: &[Line]) -> Vec<String> {
         let mut f = vec![];
-        if let Some(Op::Cfg { file_a, file_b, max_set, split, bob_initiates }) = ops.first() {
+        if let Some(Op::Cfg { file_a, file_b, max_set, split, bob_initiates, net }) = ops.first() {
+            if *net {
+                f.push("driver:network".into());
+            }
             f.push(format!("split:{split}"));
             f.push(format!("max_set:{max_set}"));
             f.push(format!("initiator:{}", if *bob_initiates { "B" } else { "A" }));
